@@ -65,6 +65,8 @@ def state_rule(ctx: Ctx, res: Result, RID: str):
                     res.fail(Finding(RID, proc.qname, st, proc.loc(st), "the processed flag is not set when _process_action raises: a failing collection is never counted and repeats forever"))
             else:
                 res.fail(Finding(RID, sf.qname, paths.stmt_of(p, v), sf.loc(v), "the processed flag is written outside __init__(False)/process(True)"))
+        if not any(sf is proc and isinstance(v, ast.Constant) and v.value is True for sf, v, _ in t.field_stores(acls, fld)):
+            res.fail(Finding(RID, proc.qname, "<%s = True>" % flag, proc.loc(), "process() never sets the processed flag: no collection is ever counted, fire_count and fire_period do not limit anything"))
     worker, roles = trace_worker(ctx)
     for c in [c for c in t.calls_in(worker) if any(x.qname == AC + ".process" for x in t.resolve_call(c, worker).repo)]:
         withs = [a for a in p.ancestors(c, stop=worker.node) if isinstance(a, ast.With) and any(
